@@ -132,6 +132,23 @@ def _common_smoother_checks(res, case, out, ref, pert, tag):
         res.label(f"{tag}:joint_skipped_illcond")
         return None
     res.label(f"{tag}:joint_checked")
+    # entrywise conditioning of the recomposition itself: cov_i = A cov_{i+1} A^T + Q is accurate to 64 eps x the sum of the absolute
+    # terms, which can exceed the result by many orders (calibrated covariances of 1e-19 next to gains of 1e4: seed-0 false alarm, a
+    # 10 % difference in a variance of 2e-19). Entries whose bound exceeds a tenth of the comparison tolerance are not compared (counted).
+    Gabs = np.abs(np.asarray(out["post_marg_cov"], float))
+    covs = [np.array(c, float) for c in covs]
+    masked = 0
+    for i in range(Kn - 2, -1, -1):
+        Aa, Qa = np.abs(np.asarray(bw[i][0], float)), np.abs(np.asarray(bw[i][2], float))
+        Gabs = Aa @ Gabs @ Aa.T + Qa
+        dd = np.sqrt(np.clip(np.diag(ref["cov"][i]), 0, None))
+        dp = np.sqrt(np.clip(np.diag(ref["pcov"][i]), 0, None))
+        sc = np.maximum(np.outer(dd, dd) + 1e-5 * np.outer(dp, dp), 1e-300)
+        mask = 64.0 * np.finfo(float).eps * Gabs / sc > JOINT_TOL0
+        masked += int(mask.sum())
+        covs[i] = np.where(mask, np.asarray(ref["cov"][i], float), covs[i])
+    if masked:
+        res.label(f"{tag}:joint_entries_beyond_float64")
     ssmcase.compare_marginals(res, f"{tag}:joint_marginals", case, np.asarray(means), np.asarray(covs), ref, pert, tol0=JOINT_TOL0)
     return cross
 
